@@ -24,6 +24,14 @@ func main() {
 		cmdList(os.Args[2:])
 	case "replay":
 		cmdReplay(os.Args[2:])
+	case "loopmap":
+		env, err := loadEnv("/repo")
+		if err != nil {
+			fmt.Fprintln(os.Stderr, err)
+			os.Exit(2)
+		}
+		b, _ := json.MarshalIndent(env.currentLoopMap(), "", " ")
+		fmt.Println(string(b))
 	case "pool":
 		repo := "/repo"
 		if len(os.Args) > 2 {
